@@ -358,6 +358,8 @@ func run(r *ev.Run) int {
 		fmt.Printf("replay: re-running group %s (tier %s, seed %d)\n", base, r.Tier, r.Seed)
 	}
 
+	var wallMu sync.Mutex
+	walls := map[string]float64{}
 	par := 8
 	sem := make(chan struct{}, par)
 	var wg sync.WaitGroup
@@ -370,12 +372,16 @@ func run(r *ev.Run) int {
 			defer func() { <-sem }()
 			t0 := time.Now()
 			g.run(r, groupRng(r.Seed, g.id))
-			r.Extra("wall_s_"+g.id, time.Since(t0).Seconds())
+			wallMu.Lock()
+			walls[g.id] = float64(time.Since(t0).Milliseconds()) / 1000
+			wallMu.Unlock()
 			r.Distinct("groups_run", g.id)
 		}()
 	}
 	wg.Wait()
 	flushSamples(r)
+	r.Extra("group_wall_s", walls)
+	r.Extra("server_start_retries_after_port_clash", startRetries.Load())
 	unjMu.Lock()
 	if len(unj) > 0 {
 		r.Extra("unjudged_outcomes", unj)
@@ -387,23 +393,22 @@ func run(r *ev.Run) int {
 		r.FloorDistinct("protected_methods_leader", nm)
 		r.FloorDistinct("protected_methods_follower", nm)
 		r.FloorDistinct("control_methods_leader", nm)
-		r.FloorCount("token_probes", int64(r.Pick(400, 3000)))
-		r.FloorCount("refusals_followed_by_dump", int64(r.Pick(300, 2500)))
-		r.FloorCount("admitted_calls", int64(r.Pick(30, 150)))
-		r.FloorCount("admitted_calls_with_visible_effect", int64(r.Pick(6, 30)))
-		r.FloorCount("unprotected_calls", int64(r.Pick(200, 1000)))
-		r.FloorCount("control_probes", int64(r.Pick(60, 120)))
-		r.FloorCount("handshakes_inproc", int64(r.Pick(500, 4000)))
-		r.FloorCount("tls_rpc_probes", int64(r.Pick(60, 600)))
-		r.FloorCount("near_miss_token_probes", int64(r.Pick(300, 2500)))
-		r.FloorCount("near_miss_certificates", int64(r.Pick(250, 2500)))
-		r.FloorCount("tls_observed_accepted", int64(r.Pick(20, 100)))
-		r.FloorDistinct("option_sets_inproc", 8)
-		r.FloorDistinct("option_sets_binary", int64(r.Pick(2, 6)))
-		r.FloorNontrivial(int64(r.Pick(600, 5000)))
-		if all := r.Thorough(); all {
-			r.FloorDistinct("control_methods_follower", nm)
-		}
+		r.FloorDistinct("control_methods_follower", nm)
+		r.FloorDistinct("unprotected_methods", 7)
+		r.FloorCount("token_probes", int64(r.Pick(400, 10000)))
+		r.FloorCount("refusals_followed_by_dump", int64(r.Pick(350, 9000)))
+		r.FloorCount("admitted_calls", int64(r.Pick(36, 400)))
+		r.FloorCount("admitted_calls_with_visible_effect", int64(r.Pick(9, 100)))
+		r.FloorCount("unprotected_calls", int64(r.Pick(350, 4000)))
+		r.FloorCount("control_probes", int64(r.Pick(100, 300)))
+		r.FloorCount("handshakes_inproc", int64(r.Pick(600, 4000)))
+		r.FloorCount("tls_rpc_probes", int64(r.Pick(90, 3000)))
+		r.FloorCount("near_miss_token_probes", int64(r.Pick(350, 9000)))
+		r.FloorCount("near_miss_certificates", int64(r.Pick(330, 4500)))
+		r.FloorCount("tls_observed_accepted", int64(r.Pick(150, 1000)))
+		r.FloorDistinct("option_sets_inproc", 16)
+		r.FloorDistinct("option_sets_binary", int64(r.Pick(3, 12)))
+		r.FloorNontrivial(int64(r.Pick(750, 14000)))
 	}
 	return 0
 }
